@@ -64,7 +64,10 @@ def _strip_comments(s):
 def forbidden_gate():
     hits = []
     for f in coq_files():
-        src = _strip_comments(open(os.path.join(COQ, f)).read())
+        try:
+            src = _strip_comments(open(os.path.join(COQ, f)).read())
+        except FileNotFoundError:      # a temporary file of a concurrent builder disappeared
+            continue
         for m in FORBIDDEN.finditer(src):
             hits.append(f'{f}: {m.group(0)}')
     proj = open(os.path.join(COQ, '_CoqProject')).read()
